@@ -24,6 +24,18 @@ BASE_NS = 1_700_000_000 * 10**9
 _clock = {"us": 0}
 time.time_ns = lambda: BASE_NS + _clock["us"] * 1000  # noqa: E731  (parser.py reads time.time_ns)
 
+# a held lock must not cost the 60 s busy timeout parse() asks for: every connection of this process waits at
+# most 50 ms (only matters while the harness itself holds a lock on the cache database)
+_real_connect = sqlite3.connect
+
+
+def _fast_connect(*a, **k):
+    k["timeout"] = min(k.get("timeout", 5.0), 0.05)
+    return _real_connect(*a, **k)
+
+
+sqlite3.connect = _fast_connect
+
 import pymoca  # noqa: E402
 
 pymoca.__version__ = "0.0.0+verif"
@@ -204,22 +216,80 @@ DUMMY = "CREATE TABLE {} (wrong_key TEXT, wrong_value TEXT, PRIMARY KEY (wrong_k
 
 
 def db_exec(path, stmts):
+    """all statements in one transaction, or none of them"""
     if not os.path.exists(path):
         return "missing"
     try:
-        c = sqlite3.connect(path)
+        c = sqlite3.connect(path, isolation_level=None)
         try:
-            for s in stmts:
-                if isinstance(s, tuple):
-                    c.execute(*s)
-                else:
-                    c.execute(s)
-            c.commit()
+            c.execute("BEGIN IMMEDIATE")
+            try:
+                for s in stmts:
+                    if isinstance(s, tuple):
+                        c.execute(*s)
+                    else:
+                        c.execute(s)
+                c.execute("COMMIT")
+            except BaseException:
+                try:
+                    c.execute("ROLLBACK")
+                except sqlite3.Error:
+                    pass
+                raise
         finally:
             c.close()
         return "ok"
     except sqlite3.DatabaseError as e:
         return "dberr:" + type(e).__name__
+
+
+RETYPE = {   # right column names and primary key, other declared types / affinities
+    "models_lasthit_text": "txt_hash TEXT, pymoca_version TEXT, data BLOB, last_hit TEXT",
+    "models_lasthit_real": "txt_hash TEXT, pymoca_version TEXT, data BLOB, last_hit REAL",
+    "models_data_text": "txt_hash TEXT, pymoca_version TEXT, data TEXT, last_hit TIMESTAMP INTEGER",
+    "models_hash_blob": "txt_hash BLOB, pymoca_version TEXT, data BLOB, last_hit TIMESTAMP INTEGER",
+    "models_untyped": "txt_hash, pymoca_version, data, last_hit",
+}
+
+
+def retype_stmts(cols):
+    return ["DROP TABLE IF EXISTS models_new",
+            "CREATE TABLE models_new (%s, PRIMARY KEY (txt_hash, pymoca_version))" % cols,
+            "INSERT INTO models_new SELECT txt_hash, pymoca_version, data, last_hit FROM models",
+            "DROP TABLE models",
+            "ALTER TABLE models_new RENAME TO models"]
+
+
+VIEW = ("CREATE VIEW models AS SELECT 'x' AS txt_hash, 'v' AS pymoca_version, NULL AS data, 0 AS last_hit "
+        "WHERE 0")
+_lock = {}
+
+
+def release_lock():
+    c = _lock.pop("c", None)
+    if c is not None:
+        try:
+            c.close()
+        except sqlite3.Error:
+            pass
+
+
+def take_lock(path, mode):
+    """another connection holds a write lock (RESERVED) or an exclusive lock on the cache database"""
+    release_lock()
+    if mode == "release" or not os.path.isfile(path):
+        return "noop"
+    try:
+        c = sqlite3.connect(path, isolation_level=None)
+        try:
+            c.execute("BEGIN IMMEDIATE" if mode == "reserved" else "BEGIN EXCLUSIVE")
+        except sqlite3.DatabaseError:
+            c.close()
+            return "noop"
+        _lock["c"] = c
+        return "ok"
+    except sqlite3.DatabaseError:
+        return "noop"
 
 
 def index_rowid_swap(path):
@@ -362,7 +432,8 @@ def _handler(case):
                 o["applied"] = db_exec(path, [("UPDATE models SET data = ? WHERE txt_hash = ?", (val, key_of(texts[ti])))])
             elif k == "layout":
                 kind = op[1]
-                stmts = {
+                stmts = retype_stmts(RETYPE[kind]) if kind in RETYPE else {
+                    "models_view": ["DROP TABLE IF EXISTS models", VIEW],
                     "models_dropped": ["DROP TABLE IF EXISTS models"],
                     "models_wrong": ["DROP TABLE IF EXISTS models", DUMMY.format("models")],
                     "models_extra": ["ALTER TABLE models ADD COLUMN extra TEXT"],
@@ -371,9 +442,18 @@ def _handler(case):
                     "meta_emptied": ["DELETE FROM metadata"],
                 }[kind]
                 o["applied"] = db_exec(path, stmts)
+            elif k == "lock":
+                o["applied"] = take_lock(path, op[1])
             elif k == "file":
                 kind = op[1]
-                if kind == "index_swap_restart":   # index damage, then the process restarts
+                release_lock()                      # whoever held a lock lets go before the file is replaced
+                if os.path.isdir(path) and kind != "index_swap_restart":
+                    shutil.rmtree(path)             # a directory in place of the file is removed by every file op
+                if kind == "directory":
+                    if os.path.exists(path):
+                        os.remove(path)
+                    os.mkdir(path)
+                elif kind == "index_swap_restart":   # index damage, then the process restarts
                     o["applied"] = "ok" if index_rowid_swap(path) else "noop"
                     importlib.reload(pymoca.parser)
                     _wrap_parse()
@@ -396,6 +476,7 @@ def _handler(case):
                 rows_seen += sum(1 for r_ in st if r_[0] >= 0)
             obs.append(o)
     finally:
+        release_lock()
         shutil.rmtree(folder, ignore_errors=True)
     sig = [hashlib.sha1(f[1].encode("utf-8", "surrogatepass")).hexdigest() if f[0] == "tree" else None for f in fr]
     return {"obs": obs, "fresh": [f[0] for f in fr], "fresh_sig": sig, "rows_seen": rows_seen}
